@@ -38,6 +38,7 @@ type ClntPeer struct {
 	ReadErr error
 	BadSize bool
 	OnReply func(r *Recvd)
+	StopReading bool // the client stops taking replies off the connection
 	// outstanding requests in issue order (a slice, not a map: see case.go on the race detector)
 	out []*Sent
 	G   *rt.G
@@ -56,6 +57,9 @@ func (p *ClntPeer) StartReader() {
 		var fr Framer
 		buf := make([]byte, 1<<16)
 		for {
+			if p.StopReading {
+				rt.YieldUntil(rt.SiteActor, func() bool { return !p.StopReading })
+			}
 			n, err := p.Conn.Read(buf)
 			if err != nil {
 				p.EOF = true
